@@ -12,6 +12,7 @@ Gen/Triangulate.v stays in place.
 """
 import ast
 import os
+import shutil
 import sys
 import textwrap
 
@@ -336,6 +337,12 @@ def main(argv):
         it, w, cat = load(find_method(tsm, 'TriangleSet', 'load'))
         disp = dispatch(tsm)
     except Reject as e:
+        # fail closed: the committed golden copy becomes the definition again
+        golden = os.path.join(os.path.dirname(os.path.abspath(__file__)), 'golden', 'Triangulate.v')
+        target = os.path.join(gen, 'Triangulate.v')
+        if os.path.exists(golden) and (not os.path.exists(target) or open(target).read() != open(golden).read()):
+            os.makedirs(gen, exist_ok=True)
+            shutil.copyfile(golden, target)
         sys.stderr.write('triangulate translator: source outside the accepted grammar: %s\n' % e)
         return 1
     text = (
